@@ -146,6 +146,8 @@ func genC23(g *Gen, tier string, w *bufio.Writer) {
 			fmt.Fprintln(w, "proj "+mask+" "+jsonOp(g.U64()>>1, genJSONDoc(g, Pick(g, []int{1, 2, 5, 20, 101, 120}), g.Bool())))
 		}
 	}
+	// --- parquet: written with the repository's parquet-go, read back through the real datasource
+	genPqOps(g, tier, w)
 	// --- the reorder queue under seeded worker delays
 	for _, n := range []int{0, 1, 63, 64, 65, 127, 128, 129, 640, 1000, 2500} {
 		for i := 0; i < 2*mul; i++ {
@@ -194,6 +196,8 @@ func driveFiles(toks []string) string {
 		return runQueue(seed, n)
 	case "ints", "bools":
 		return driveParsers(toks)
+	case "pq":
+		return drivePq(toks)
 	case "rawjson":
 		return runBytes("json", "t.json", []byte(unhex(toks[1])), nil)
 	case "rawcsv":
